@@ -63,7 +63,7 @@ pub fn install_panic_hook() {
                 format!("{}:{}", f, l.line())
             })
             .unwrap_or_else(|| "?".into());
-        let case = CASE.with(|c| c.get());
+        let case = CASE.try_with(|c| c.get()).unwrap_or(u64::MAX);
         PANICS.lock().unwrap_or_else(|e| e.into_inner()).push((case, loc));
     }));
 }
@@ -126,6 +126,8 @@ pub struct WireLog {
     pub record: bool,
     /// every datagram put on the wire by an endpoint (only when `record`)
     pub sent: Vec<WireRec>,
+    /// every datagram handed to an endpoint's socket, genuine or not, with its delivery time (only when `record`)
+    pub delivered: Vec<WireRec>,
 }
 
 impl WireLog {
@@ -204,6 +206,11 @@ impl Net {
         Instant::now() - self.start
     }
 
+    /// origin of the wire log's `t_us`
+    pub fn start(&self) -> Instant {
+        self.start
+    }
+
     pub fn record(&self, on: bool) {
         self.inner.lock().unwrap().log.record = on;
     }
@@ -227,6 +234,10 @@ impl Net {
                 while g.heap.peek().is_some_and(|s| s.due <= now) {
                     let s = g.heap.pop().unwrap();
                     g.log.bump("delivered");
+                    if g.log.record {
+                        let t_us = (now - self.start).as_micros() as u64;
+                        g.log.delivered.push(WireRec { t_us, src: s.d.src, dst: s.d.dst, data: s.d.data.clone() });
+                    }
                     if let Some(ib) = g.inboxes.get_mut(&s.d.dst) {
                         ib.q.push_back((s.d.data, s.d.src));
                         if let Some(w) = ib.waker.take() {
@@ -702,13 +713,94 @@ where
             CASE.with(|c| c.set(case));
             let rt = tokio::runtime::Builder::new_current_thread().enable_time().start_paused(true).build().expect("rt");
             let r = std::panic::catch_unwind(std::panic::AssertUnwindSafe(|| rt.block_on(async move { f().await })));
-            // dropping the runtime drops every task of the case (connections, pump)
-            let _ = std::panic::catch_unwind(std::panic::AssertUnwindSafe(move || drop(rt)));
+            // dropping the runtime drops every task of the case (connections, pump).  After a panic inside the stack
+            // some of those destructors panic again while another panic unwinds (=> process abort, seen with mutation M1:
+            // AEAD result ignored): such a runtime is leaked instead of dropped.
+            if r.is_err() || !panics_of(case).is_empty() {
+                std::mem::forget(rt);
+            } else {
+                let _ = std::panic::catch_unwind(std::panic::AssertUnwindSafe(move || drop(rt)));
+            }
             let _ = tx.send(r.ok());
         })
         .expect("spawn case thread");
     match rx.recv_timeout(wall_guard) {
         Ok(result) => CaseOutcome { result, panics: panics_of(case), wall: t0.elapsed(), wall_hang: false },
         Err(_) => CaseOutcome { result: None, panics: panics_of(case), wall: t0.elapsed(), wall_hang: true },
+    }
+}
+
+// ------------------------------------------------------------------------------------------------
+// packet tap: what each endpoint says (through qlog) it sent / processed, per packet
+// ------------------------------------------------------------------------------------------------
+
+#[derive(Clone, Debug)]
+pub struct PktEv {
+    /// "client" | "server" (vantage point of the trace that logged it)
+    pub ep: String,
+    /// true = packet_received (authenticated and its frames dispatched), false = packet_sent
+    pub rcvd: bool,
+    /// qlog packet type: initial | handshake | 0RTT | 1RTT | ...
+    pub ty: String,
+    pub pn: Option<u64>,
+    /// qlog frame_type of every frame
+    pub frames: Vec<String>,
+    /// virtual instant of the event (compare with instants taken inside the case; `Net::start()` is the wire log's origin)
+    pub at: Instant,
+}
+
+/// A `QLog` that keeps only `packet_received` / `packet_sent` events, in compact form, tagged with the endpoint.
+/// Install with `PairCfg::default().with_qlog(tap.clone())`, read with `tap.take()`.
+pub struct PacketTap {
+    evs: Arc<Mutex<Vec<PktEv>>>,
+}
+
+impl PacketTap {
+    pub fn new() -> Arc<PacketTap> {
+        Arc::new(PacketTap { evs: Arc::new(Mutex::new(vec![])) })
+    }
+    pub fn take(&self) -> Vec<PktEv> {
+        self.evs.lock().unwrap_or_else(|e| e.into_inner()).clone()
+    }
+}
+
+struct TapExp {
+    ep: String,
+    evs: Arc<Mutex<Vec<PktEv>>>,
+}
+
+impl dquic::qevent::telemetry::ExportEvent for TapExp {
+    fn emit(&self, event: dquic::qevent::Event) {
+        let Ok(v) = serde_json::to_value(&event) else { return };
+        let name = v.get("name").and_then(|x| x.as_str()).unwrap_or("");
+        let rcvd = name.contains("packet_received");
+        if !rcvd && !name.contains("packet_sent") {
+            return;
+        }
+        let d = &v["data"];
+        let frames = d["frames"].as_array().map(|a| a.iter().map(|f| f["frame_type"].as_str().unwrap_or("?").to_string()).collect()).unwrap_or_default();
+        self.evs.lock().unwrap_or_else(|e| e.into_inner()).push(PktEv {
+            ep: self.ep.clone(),
+            rcvd,
+            ty: d["header"]["packet_type"].as_str().unwrap_or("?").to_string(),
+            pn: d["header"]["packet_number"].as_u64(),
+            frames,
+            at: Instant::now(),
+        });
+    }
+    fn filter_event(&self, scheme: &'static str) -> bool {
+        scheme.contains("packet_received") || scheme.contains("packet_sent")
+    }
+    fn filter_raw_data(&self) -> bool {
+        false
+    }
+}
+
+impl dquic::qevent::telemetry::QLog for PacketTap {
+    fn new_trace(&self, vantage_point: dquic::qevent::VantagePointType, group_id: dquic::qevent::GroupID) -> dquic::qevent::telemetry::Span {
+        use dquic::qevent::telemetry::macro_support as ms;
+        let mut fields = ms::current_span_fields();
+        fields.insert("group_id", ms::to_value(group_id));
+        ms::new_span(Arc::new(TapExp { ep: format!("{vantage_point}"), evs: self.evs.clone() }), fields)
     }
 }
